@@ -233,6 +233,8 @@ def r1_r4_expansion(prog, rep: Report, f: Func):
               f"the index recorded for the child `{src(ent[layout['index']])}` is not (slice start + position in the slice): normal form {cidx}",
               scenario="children are later extended from the wrong position: combinations are duplicated or skipped")
     kexpr = ent[layout["key"]]
+    if isinstance(kexpr, ast.Name):
+        kexpr = flow.expand(kexpr)                 # new_key = key(new_comb); heappush(queue, (new_key, ...))
     key_ok = isinstance(kexpr, ast.Call) and src(kexpr.func) == key and len(kexpr.args) == 1 and \
         (src(flow.expand(kexpr.args[0])) == src(child) or src(kexpr.args[0]) == src(ent[layout["comb"]]))
     rep.check("C17.R2", f, "child-key", key_ok, f"pushed with {key}(child)", f"the child is pushed with `{src(kexpr)}`, not {key}(child)",
